@@ -784,18 +784,31 @@ func (c *PathCtx) choice(tag string, n int) int {
 }
 
 func doSelect(fr *frame, instr *ssa.Select) value {
-	var ready []int
-	for i, st := range instr.States {
-		ch := fr.get(st.Chan).(*ochan)
-		if ch == nil {
-			continue
-		}
-		if st.Dir == types.RecvOnly {
-			if ch.canRecv() {
+	readyCases := func() []int {
+		var ready []int
+		for i, st := range instr.States {
+			ch := fr.get(st.Chan).(*ochan)
+			if ch == nil {
+				continue
+			}
+			if st.Dir == types.RecvOnly {
+				if ch.canRecv() {
+					ready = append(ready, i)
+				}
+			} else if ch.closed || ch.canSend() {
 				ready = append(ready, i)
 			}
-		} else if ch.closed || ch.canSend() {
-			ready = append(ready, i)
+		}
+		return ready
+	}
+	ready := readyCases()
+	// a blocking select with nothing ready: the environment (sym.OnYield) may act - other goroutines,
+	// passing time - until a case becomes ready or it declares that nothing will ever happen
+	for round := 0; len(ready) == 0 && instr.Blocking && cur.yieldFn != nil && round < 64; round++ {
+		r := call(fr.i, fr, 0, cur.yieldFn, []value{"select"})
+		ready = readyCases()
+		if rb, ok := r.(bool); ok && !rb {
+			break
 		}
 	}
 	chosen := -1
